@@ -3,7 +3,9 @@
     Everything is compared bit for bit except: [phi] of Disk3D::basic_intersection and the fields of
     DistantSource3D::new (libm: 2^-40 relative); a decision [phi > phi_max] is compared only when the model's
     margin |phi - phi_max| exceeds 1e-9 and (x,y) is not the origin (atan2's signed-zero conventions);
-    skipped cases get the tag 9900+op. *)
+    skipped cases get the tag 9900+op.
+    Path tags = 100 * op + the model's own tag of the decision; ops without rays: 2 tri_new, 5 plane_new, 8 Plane3D::test_point
+    (801 false / 802 true), 9 Ray3D::advance (901), 10 / 11 disk constructors, 18 disk area, 20 distant_new, 25 DistantSource3D::area (2501). *)
 From G3 Require Import Run.Harness Model.Vec Model.BBox Model.Transform Model.Hit Model.Segment Model.Triangle
   Model.Plane Model.Disk Model.Distant.
 
@@ -166,6 +168,14 @@ Definition chk (c : N * list spec_float * list spec_float * list spec_float) : N
            | Panic s => fin panic_out s false
            end
          end
+  | 8 => (* Plane3D::test_point: [rays] = the point; tags 801 = false, 802 = true *)
+         let b := plane_test_point (mkPlane (v_of p 1) (fl p 4)) (v_of rays 0) in
+         fin [ex (if b then 1 else 0)%float] (if b then 2 else 1) false
+  | 9 => (* Ray3D::advance: [rays] = origin, direction, t; tag 901 *)
+         let r := ray_advance (ray_of rays 0) (fl rays 6) in
+         fin (exv (rorigin r) ++ exv (rdir r)) 1 false
+  | 25 => (* DistantSource3D::area; tag 2501 *)
+         fin [ex (distant_area (ds_of p))] 1 false
   | 18 => fin [ex (disk_area (disk_of p))] 1 false
   | 20 => let s := distant_new (v_of p 1) (fl p 4) in
          fin (exv (ds_direction s) ++ [cl (ds_omega s); ex (ds_angle s); cl (ds_cos_half_alpha s); cl (ds_tan_half_alpha s)]) 1 false
